@@ -405,7 +405,7 @@ static void generate(Rng &rng, const Opts &o, std::vector<std::string> &lines) {
         return mmatrix_from_edges(N, e, shift);
     };
     static const Q RELAX[] = { Q(1), Q(1), Q::frac(1, 2), Q::frac(3, 4), Q::frac(5, 4) };
-    for (long k = 0; k < (o.thorough() ? 600 : 120); ++k) {
+    for (long k = 0; k < (o.thorough() ? 800 : 200); ++k) {
         int np = (k % 4 == 3) ? (int)rng.range(1, W) : (int)rng.range(2, W); if (np > W) np = W;
         int fam = (int)(k % 4); std::vector<long> p; Mat A;
         if (k % 10 == 9) { A = gen_spd(rng, rng.range(6, o.thorough() ? 60 : 30), (int)rng.range(0, 3), 4); p = rand_part(rng, A.n, np); }   // the older families too
@@ -414,7 +414,7 @@ static void generate(Rng &rng, const Opts &o, std::vector<std::string> &lines) {
         lines.push_back(l.get());
     }
     // the coupled solver on the same families, smoothed-aggregation combinations (1, 3, 4)
-    for (long k = 0; k < (o.thorough() ? 120 : 24); ++k) {
+    for (long k = 0; k < (o.thorough() ? 150 : 42); ++k) {
         static const int SAC[] = { 1, 3, 4 };
         int np = (int)rng.range(2, W); if (np > W) np = W;
         std::vector<long> p; Mat A = two_scale((int)(k % 4), np, o.thorough() ? 60 : 36, p);
